@@ -34,6 +34,9 @@ type Path struct {
 	Decs    []dec
 	Nondets []NondetRec
 	unknown bool
+	// abstraction of expensive operators (see abstractURem): exact definitions, added when a model matters
+	Exact    []*smt.Term
+	uremMemo map[[2]int]*smt.Term
 }
 
 // Violation is a failed obligation with a model.
@@ -335,6 +338,12 @@ func (it *Interp) Assert(label string, c *smt.Term) {
 	}
 	as := append(append([]*smt.Term{}, it.P.PC...), neg)
 	r, err := it.S.Check(as, it.Cfg.AssertTimeout)
+	if err == nil && r == smt.Sat && len(it.P.Exact) > 0 {
+		// the abstraction admits a counterexample: decide it with the exact definitions
+		it.S.Pop()
+		as = append(as, it.P.Exact...)
+		r, err = it.S.Check(as, it.Cfg.AssertTimeout)
+	}
 	switch {
 	case err != nil || r == smt.Unknown:
 		it.jr.Inconclusive = append(it.jr.Inconclusive, fmt.Sprintf("assert %s: solver %v %v", label, r, err))
@@ -381,7 +390,8 @@ func (it *Interp) Reach(label string, c *smt.Term) {
 		return
 	}
 	as := append(append([]*smt.Term{}, it.P.PC...), c)
-	r, err := it.S.Check(as, it.Cfg.FeasTimeoutMs)
+	as = append(as, it.P.Exact...)
+	r, err := it.S.Check(as, it.Cfg.AssertTimeout)
 	if err != nil || r != smt.Sat {
 		return
 	}
@@ -572,7 +582,7 @@ func (it *Interp) escapedPanic(gp *GoPanic) {
 		return
 	}
 	// the path condition is feasible (every fork was checked) unless unknowns were kept
-	r, err := it.S.Check(it.P.PC, it.Cfg.AssertTimeout)
+	r, err := it.S.Check(append(append([]*smt.Term{}, it.P.PC...), it.P.Exact...), it.Cfg.AssertTimeout)
 	if err != nil || r == smt.Unknown {
 		it.jr.Inconclusive = append(it.jr.Inconclusive, "panic path feasibility unknown: "+gp.Msg)
 		return
